@@ -23,18 +23,21 @@ SpecialSp(kind) == IF kind = "req"
         "Transfer-Encoding", "Trailer", "Date"}
 \* names that are special for the OTHER kind are ordinary here
 CrossSp(kind) == IF kind = "req" THEN {"Server", "Set-Cookie"} ELSE {"Host", "Cookie"}
-\* non-canonical spellings of special names are only used when names are normalised
+\* non-canonical spellings of special names: with normalisation on (all profiles) and,
+\* with normalisation off, only in PROFILE 5
 LowerSp(kind, norm) == IF ~norm THEN {}
   ELSE IF kind = "req" THEN {"content-type", "host", "connection"} ELSE {"content-type", "connection", "server"}
 
 GConfigs ==
-  CASE PROFILE = 1 ->   \* deletion-heavy: Add/Del of two ordinary names + Content-Length/Transfer-Encoding setters
-         { C(m, {"X-A", "X-B"}, {"Add", "Del"}, {"v1", "v2"}, {"framing"}) : m \in Modes }
+  CASE PROFILE = 1 ->   \* deletion-heavy: Add/Del of two ordinary names + SetContentLength (8 operations)
+         { C(m, {"X-A", "X-B"}, {"Add", "Del"}, {"v1", "v2"}, {"cl"}) : m \in Modes }
     [] PROFILE = 2 ->   \* the whole operation alphabet
          { C(m, {"X-A", "x-a", "X-B"} \cup SpecialSp(m[1]) \cup CrossSp(m[1]) \cup LowerSp(m[1], m[2]),
              AllOps, {"v1", "v2", ""}, {"framing", "cookie", "slot"}) : m \in Modes }
     [] PROFILE = 3 ->   \* ordinary names in several spellings + Connection / Content-Length
          { C(m, {"X-A", "x-a", "X-B", "Connection", "Content-Length"}, AllOps, {"v1", "v2"}, {"framing"}) : m \in Modes }
+    [] PROFILE = 5 ->   \* normalisation OFF and a special name in a non-canonical spelling
+         { C(m, {"content-type", "Content-Type", "X-A"}, AllOps, {"v1"}, {}) : m \in { <<"req", FALSE>>, <<"resp", FALSE>> } }
     [] PROFILE = 4 ->   \* cookies, trailers and slots
          { C(m, {"X-A", "Trailer", "Content-Type", IF m[1] = "req" THEN "Cookie" ELSE "Set-Cookie",
                  IF m[1] = "req" THEN "Host" ELSE "Server"}, AllOps, {"v1"}, {"cookie", "slot"}) : m \in Modes }
@@ -42,7 +45,8 @@ GConfigs ==
 \* spellings the observers are queried with (fixed order)
 QSeq == <<"X-A", "x-a", "X-B", "Content-Type", "Content-Length", "Content-Encoding", "Host", "User-Agent",
           "Connection", "Server", "Cookie", "Set-Cookie", "Trailer", "Transfer-Encoding", "Date">>
-        \o (IF Norm THEN <<"content-type", "host", "connection", "server", "set-cookie">> ELSE <<>>)
+        \o (IF Norm THEN <<"content-type", "host", "connection", "server", "set-cookie">>
+            ELSE IF PROFILE = 5 THEN <<"content-type">> ELSE <<>>)
 \* single-valued slots: an empty value and an absent field are the same thing
 IsSlot(sp) == IsSpecial(sp) /\ Canon(sp) \notin {"Connection", "Transfer-Encoding", "Date"}
 
